@@ -137,7 +137,13 @@ fn one_pl_inner(text: &str, input: &Value, back: bool) {
                 );
             }
         }
-        Ok((Ok(mut f), _)) => {
+        Ok((Ok(mut f), dw)) => {
+            if !dw.is_empty() {
+                report(
+                    &format!("pl_to_tfm-output-framing:{}", crate::variant_name(&dw[0])),
+                    json!({"reader_warning": format!("{:?}", dw[0]), "input": input}),
+                );
+            }
             if let Err(p) = catch(|| f.validate_and_fix().len()) {
                 return on_panic(&p, "validate(deserialize(pl_to_tfm(text)))", input.clone());
             }
